@@ -97,6 +97,11 @@ Verdict(c) ==
          ELSE IF c.pos \in {"pairfirst", "pairlast"} /\ c.pair # "same" THEN "reject"
          ELSE IF c.pos \notin {"only", "pairfirst", "pairlast"} THEN "reject"
          ELSE IF ~Locked(c) THEN "dontcare"          \* SIG_ALL after the locktime: the statement is silent
+         \* outputs signed by the first co-signer alone (helper): as good as the lock key's when one signature of
+         \* {lock key} \cup pubkeys is asked for
+         ELSE IF c.osig = "cosigner" THEN (IF c.kind = "P2PK" /\ c.nsigs = 1 /\ c.npub > 0 /\ v = "accept" THEN "accept" ELSE "dontcare")
+         \* first output: two co-signers; later outputs: the lock key twice (different nonces) - one key where two are asked for
+         ELSE IF c.osig = "onekeytwice" THEN (IF c.kind = "P2PK" /\ c.nsigs = 2 /\ c.npub = 2 THEN "reject" ELSE "dontcare")
          ELSE IF c.osig # "valid" THEN "reject"      \* every output must be signed as well
          ELSE IF c.kind = "HTLC" /\ (c.nsigs <= 0 \/ c.npub = 0) THEN "dontcare"  \* no key could sign the outputs
          ELSE IF v = "accept" THEN "accept" ELSE "dontcare"
@@ -155,7 +160,7 @@ MintCases ==
     hash |-> "ok", pre |-> (IF k = "HTLC" THEN pr ELSE "absent"), ep |-> ep, pos |-> pos, osig |-> os, pair |-> "none"] :
      k \in {"P2PK", "HTLC"}, n \in {-1, 1, 2, 3}, p \in {0, 2}, lt \in LockTimes, r \in {0, 1}, f \in Flags, w \in MintWits,
      pr \in {"right", "wrong"}, ep \in {"swap", "melt"}, pos \in {"only", "first", "middle", "last"},
-     os \in {"none", "valid", "garbage", "onemissing", "laterbad", "firstbad", "latermissing"}}
+     os \in {"none", "valid", "garbage", "onemissing", "laterbad", "firstbad", "latermissing", "cosigner", "onekeytwice"}}
 
 \* a seeded slice of the mint-level table in the quick tier, everything in the thorough tier
 Seed == IF "VERIF_SEED" \in DOMAIN IOEnv THEN IOEnv.VERIF_SEED ELSE "1"
@@ -167,6 +172,8 @@ SelectedMintCases ==
      /\ (c.ep = "melt" => c.osig = "none")
      /\ (c.flag # "all" => c.osig \in {"none"})
      /\ (c.kind = "P2PK" => c.pre = "absent")
+     /\ (c.osig \in {"cosigner", "onekeytwice"} => c.kind = "P2PK" /\ c.npub = 2 /\ c.lt = "none" /\ c.nref = 0
+                                                    /\ c.nsigs = (IF c.osig = "cosigner" THEN 1 ELSE 2))
      /\ (c.kind = "HTLC" /\ c.pre = "wrong" => c.wit.form = "none")
      /\ (Thorough \/ (c.pos \in {"only", "last", "first"} /\ c.nsigs \in {-1, 1, 2} /\ (c.nref = 0 \/ c.lt = "past")))}
 
